@@ -229,6 +229,59 @@ def quoted_key_rt(k: int, slash: bool) -> bool:
     return _seg_eq(list(YAMLPath(t).escaped), want) and str(YAMLPath(t)) == t
 
 
+STATE_TEXTS = ["a.b\\.c[1]", "/a/b.c[x=1]", "k[.!=v].z", "/&anc/p*", "(a)+(b).c", "a.'q.r'.s"]
+
+
+def _observe(p):
+    return ([(str(t), str(a)) for t, a in p.escaped], [(str(t), str(a)) for t, a in p.unescaped], str(p),
+            str(p.separator), len(p), p.is_root)
+
+
+def state_rt(k: int) -> bool:
+    """Any sequence of accesses and mutations on ONE YAMLPath object leaves it indistinguishable from a fresh object
+    holding the same text and separator (lazy parse caches, cached string, separator changes, re-assignment)."""
+    k = realize(k)
+    t0, k = k % len(STATE_TEXTS), k // len(STATE_TEXTS)
+    ops = []
+    for _ in range(3):
+        ops.append(k % 7)
+        k //= 7
+    text = STATE_TEXTS[t0]
+    p = YAMLPath(text)
+    p.escaped                  # "a parsed path": switching the separator of a not-yet-parsed path is the documented way
+    sep = None                 # to force the separator used for parsing, which is a different operation
+    note(text=text, ops=ops)
+    for op in ops:
+        if op == 0:
+            str(p)
+        elif op == 1:
+            p.escaped
+        elif op == 2:
+            p.unescaped
+        elif op == 3:
+            p.separator = PathSeparators.DOT
+            sep = PathSeparators.DOT
+        elif op == 4:
+            p.separator = PathSeparators.FSLASH
+            sep = PathSeparators.FSLASH
+        elif op == 5:
+            text = STATE_TEXTS[(t0 + 1) % len(STATE_TEXTS)]
+            p.original = text
+            p.escaped
+            sep = None
+        else:
+            q = p + "zz"            # must not disturb p
+            if len(q) != len(p) + 1:
+                return False
+    fresh = YAMLPath(text)
+    fresh.escaped
+    if sep is not None:
+        fresh.separator = sep
+    a, b = _observe(p), _observe(fresh)
+    note(used=a[2], fresh=b[2])
+    return a == b and (p == fresh) and (YAMLPath(p) == fresh)
+
+
 REGEXES = ["^a", "a b", "a.b", "x/y", "[ab]+", "(a|b)$", "\\d+", "a'b"]
 
 
@@ -400,6 +453,12 @@ def shards(tier, seed):
                      desc="equivalent spellings of a search segment (inversion placement, ==, blanks, demarcated term)"))
     out.append(shard(PID, "parse/quoted_key", "harness.c08", "quoted_key_rt(k, slash)", [("k", "int"), ("slash", "bool")],
                      ["0 <= k < 8"], family="parse/quoted_key", budget=600, kind="S", desc="demarcated keys"))
+    n_state = len(STATE_TEXTS) * 7 * 7 * 7
+    for lo in range(0, n_state, 343):
+        out.append(shard(PID, "state/k%04d" % lo, "harness.c08", "state_rt(k)", [("k", "int")],
+                         ["%d <= k < %d" % (lo, lo + 343)], family="state", budget=900, kind="S",
+                         desc="all 3-step sequences of str/escaped/unescaped/separator changes/re-assignment/'+' on one "
+                              "YAMLPath object vs a fresh object (text #%d)" % (lo // 343)))
     out.append(shard(PID, "parse/collector3", "harness.c08", "collector3_rt(k, slash)", [("k", "int"), ("slash", "bool")],
                      ["0 <= k < 32"], family="parse/collector", budget=600, kind="S",
                      desc="(a) op (b) [key] op (c): every operator pair incl. none"))
